@@ -29,16 +29,16 @@ theorem R_mono {V : Variant} {v1 : Bool} {sS sR sS' sR' : List Bytes} {s : State
 
 theorem pairStep_eq {j : PairJ} {ev : Ev} {outs : List Out} (herr : j.err = none)
     (hne : notExecuted outs = false) :
-    pairStep j ev outs =
+    pairStepOld j ev outs =
       pairQuiescent (pairPost false j.lastPoll (pairPre false { j with lastPoll := none } ev outs).2 ev outs
         (pairMid false (pairPre false { j with lastPoll := none } ev outs).2 ev outs
           (pairPre false { j with lastPoll := none } ev outs).1)) := by
-  unfold pairStep pairStepWith
+  unfold pairStepOld pairStepWithOld
   simp [herr, hne]
 
 theorem pairStep_refused {j : PairJ} {ev : Ev} {outs : List Out} (hne : notExecuted outs = true) :
-    pairStep j ev outs = j := by
-  unfold pairStep pairStepWith; simp [hne]
+    pairStepOld j ev outs = j := by
+  unfold pairStepOld pairStepWithOld; simp [hne]
 
 def isPipeAdd : Ev → Bool | .pipeAdd _ => true | _ => false
 def isPoll : Ev → Bool | .poll => true | _ => false
